@@ -69,6 +69,7 @@ type WeatherDay struct {
 	Tavg, Tmin, Tmax, Precip, Glob, Wind, RH, Sun, Verd, ET0 float64
 	// which optional values are written as the "none" sentinel
 	NoneTavg, NoneSun, NoneVerd bool
+	NoneSunGap                  bool `json:",omitempty"` // part of a sunshine gap of two or three days (no adjacent value to take a mean from)
 	// the (required) radiation / precipitation value is written as the sentinel: the model then takes 0 (C13 pairs only)
 	NoneGlob, NonePrecip bool
 }
@@ -497,6 +498,8 @@ func profileFor(prop string) Profile {
 	case "C09":
 		p.Years = [2]int{2, 3}
 		p.Permanent = 0.15
+		p.ZeroRadProb = 0.3 // growth driven by sunshine duration instead of measured radiation
+		p.NoneValues = 0.5
 	case "C20", "C15":
 		p.GWModes = []int{0, 2, 2}
 		p.ShallowGW = 0.7
@@ -1139,6 +1142,23 @@ func genWeather(sc *Scenario, r *Rng, p Profile) {
 	// a sentinel is only defined where both adjacent days carry a value: never two in a row, never on the first /
 	// last day of the series, and (per-year files, or properties other than C04) never on a year's first / last day
 	n := len(w.Days)
+	// sunshine gaps of two or three days in a row (a quarter of the series with a sunshine column and sentinels at all): the
+	// mean of the adjacent days is not defined there; whatever the reader substitutes, it must not be the sentinel itself
+	if rg := NewRng(mix(mix(sc.Seed, uint64(sc.Index)), 5151)); w.HasSun && p.NoneValues > 0 && n > 400 && rg.Bool(0.25) {
+		for k, gaps := 0, rg.Range(1, 4); k < gaps; k++ {
+			at := rg.Range(40, n-40)
+			if at0 := sc.Start.Zeit() - w.Days[0].D.Zeit(); at0 > 0 && at0+30 < n-40 && rg.Bool(0.8) {
+				at = rg.Range(at0+5, mini(n-40, at0+5+maxi(30, sc.End.Zeit()-sc.Start.Zeit()-10)))
+			}
+			for j, l := 0, rg.Range(2, 3); j < l; j++ {
+				dd := &w.Days[at+j]
+				if (dd.D.M == 1 && dd.D.D == 1) || (dd.D.M == 12 && dd.D.D == 31) {
+					break
+				}
+				dd.NoneSun, dd.NoneSunGap = true, true
+			}
+		}
+	}
 	for i := range w.Days {
 		d := &w.Days[i]
 		edge := i == 0 || i == n-1
@@ -1150,7 +1170,7 @@ func genWeather(sc *Scenario, r *Rng, p Profile) {
 			if w.Days[i-1].NoneTavg {
 				d.NoneTavg = false
 			}
-			if w.Days[i-1].NoneSun {
+			if w.Days[i-1].NoneSun && !d.NoneSunGap {
 				d.NoneSun = false
 			}
 			if w.Days[i-1].NoneVerd {
